@@ -119,9 +119,11 @@ def mk_union(pairs):
     for g, v in flat:
         tv = type(v)
         if tv is not Sym and isinstance(v, Sym):
-            v = Sym(v.sort, v.e)
-            tv = Sym
-        if tv is Sym:
+            k = ("o", id(v))   # lazily built counts stay separate alternatives (their term is built only on demand)
+            tv = None
+        if tv is None:
+            pass
+        elif tv is Sym:
             k = ("s", v.sort)
             symsorts.add(v.sort)
         elif tv in (int, str, bytes, bool, float) or v is None:
